@@ -509,11 +509,46 @@ func checkCanonical(e *enumCtx, typ byte, in []byte) {
 	}
 }
 
+// paddedLengths: every packet of the valid corpus with its remaining length
+// written in more bytes than necessary (1, 2, ... up to the 4-byte maximum).
+// No conformant sender produces these, but the decoders accept them, and what
+// a decoder accepts must re-encode to the same bytes with Encode writing
+// Len() bytes.
+func paddedLengths(e *enumCtx) {
+	for _, p := range corpus() {
+		if !e.mine() {
+			continue
+		}
+		wire := refcodec.Encode(p)
+		_, _, body, total, err := refcodec.Frame(wire)
+		if err != nil || total != len(wire) {
+			continue
+		}
+		min := len(wire) - len(body) - 1
+		for k := min + 1; k <= 4; k++ {
+			// k-byte encoding of len(body)
+			v := len(body)
+			var vl []byte
+			for i := 0; i < k; i++ {
+				d := byte(v & 127)
+				v >>= 7
+				if i < k-1 {
+					d |= 128
+				}
+				vl = append(vl, d)
+			}
+			in := append(append([]byte{wire[0]}, vl...), body...)
+			e.c.Rep.Evaluations++
+			checkCanonical(e, p.Type, in)
+		}
+	}
+}
+
 // C03: the codec round-trips and is canonical.
 func C03(c *core.Ctx) {
 	e := &enumCtx{c: c, seen: map[string]bool{}}
 	th := c.Thorough()
-	c.Rep.Bound = "field products over boundary alphabets; accepted byte strings up to 7 bytes over an 8-value byte alphabet; 2 x (2*65536+8) automatically numbered encodes per type; every sequence of public setter / Len / Encode calls up to depth 4 (quick) / 5-6 (thorough) on fresh, decoded and cloned objects of 11 packet types"
+	c.Rep.Bound = "field products over boundary alphabets; accepted byte strings up to 7 bytes over an 8-value byte alphabet; every corpus packet with a non-minimally encoded remaining length; 2 x (2*65536+8) automatically numbered encodes per type; every sequence of public setter / Len / Encode calls up to depth 4 (quick) / 5-6 (thorough) on fresh, decoded and cloned objects of 11 packet types"
 	c.Rep.Rule = "ENUM: nested loops over boundary values of every field of all 14 packet types (string/payload lengths, remaining lengths at varint boundaries, flags, 1..1000 topics, packet ids incl. automatic ones at counter wrap); a case is distinct+non-trivial per (type, structural shape, length of the remaining-length field); oracle = independent reference codec; setter histories: the calls are mirrored on a plain reference record, and at the end of every sequence Len/Encode/getters/Decode must agree with it"
 	if c.Replay != nil {
 		fmt.Printf("replay of an input-enumeration finding: class %q\n  %s\n  input: %s\n", c.Replay.Scenario, c.Replay.Message, string(c.Replay.Input))
@@ -529,6 +564,9 @@ func C03(c *core.Ctx) {
 		c.Rep.Scenarios++
 	}
 	setterHistories(e, th)
+	c.Rep.Scenarios++
+	e.class = "padded-lengths"
+	paddedLengths(e)
 	c.Rep.Scenarios++
 	e.class = "accepted-strings"
 	maxLen := 6
